@@ -282,8 +282,13 @@ def r3(ctx, R):
         lp = _sub_loops(fi)
         R.must(lp, "%s: loop over subs not found" % spec)
         lp = lp[0]
-        table = {("is", "c", "cells"): "is_self", ("call", "c.is_defined()"): "defined", ("ncall", "c.is_derived()"): "defined",
-                 ("is", "self.get_deriv_bases(c, defined_only=True)[0]", "cells"): "first"}
+        cv = "c"
+        for n_ in ast.walk(lp):
+            if isinstance(n_, ast.Assign) and len(n_.targets) == 1 and isinstance(n_.targets[0], ast.Name) \
+                    and isinstance(n_.value, ast.Subscript) and norm(n_.value.value) == "%s.cells" % norm(lp.target):
+                cv = n_.targets[0].id      # the sub's cells of that name, whatever the local is called
+        table = {("is", cv, "cells"): "is_self", ("call", "%s.is_defined()" % cv): "defined", ("ncall", "%s.is_derived()" % cv): "defined",
+                 ("is", "self.get_deriv_bases(%s, defined_only=True)[0]" % cv, "cells"): "first"}
         _known_atoms(fi, lp, table, R)
         acts = [c for c in ast.walk(lp) if isinstance(c, ast.Call) and call_name(c) in action]
         R.must(acts, "%s: action not found in the loop" % spec)
